@@ -439,6 +439,9 @@ def run(ctx):
     # ---------------- R05.8
     recourse_filter(ctx)
 
+    # ---------------- R05.9
+    candidate_list_integrity(ctx)
+
 
 def own_generics(ctx):
     """R05.7: which tier an overload belongs to is read off its own generic-parameter list (XFuncSpec::is_generic).  That list must
@@ -584,3 +587,47 @@ def recourse_filter(ctx):
     if not found:
         r8.fail('anchor/get_item/filter', mirq.site(g, 0), 'the any / all test over the forward requirements of a parent overload was not found')
     r8.need(4)
+
+
+def candidate_list_integrity(ctx):
+    """R05.9: what resolve_overload ranks is the whole list of visible overloads of the name (possibly filtered by a predicate on
+    each candidate): the vector handed to it is the payload of get_item's answer or the `collect` of an iterator over it, never a
+    list cut down by position (vec![one of them], swap_remove, remove, truncate, first ...).  Cutting the list before ranking hides
+    equally ranked candidates, i.e. ambiguities."""
+    from .lib import mirq
+    from .lib.facts import strip_generics, callee_name, op_place
+    mir = ctx.mir
+    r9 = ctx.rule('R05.9', 'the candidate list handed to resolve_overload is never cut down by position')
+    POSITIONAL = re.compile(r'(Vec::swap_remove|Vec::remove|Vec::truncate|Vec::pop|Vec::split_off|Vec::drain|Vec::retain|slice.*::first|slice.*::last|box_assume_init_into_vec_unsafe|::into_vec|Iterator::take|Iterator::skip|Iterator::nth|Iterator::position|Iterator::last|Iterator::step_by|Iterator::find)$')
+    for b, bb, t in mir.call_sites(lambda n: n.endswith('CompilationScope::resolve_overload')):
+        p = op_place(t['args'][1]) if len(t['args']) > 1 else None
+        if p is None:
+            continue
+        bad = []
+        sl = mirq.backslice(b, [p['l']])
+        for l in sl:
+            if 'OverloadWithForwardReq' not in (b.local_ty(l) or '') and 'TracedOverload' not in (b.local_ty(l) or ''):
+                continue
+            for kind, dbb, idx, d in b.defs().get(l, []):
+                if kind == 'call':
+                    nm = strip_generics(callee_name(d) or d.get('decl') or '')
+                    if POSITIONAL.search(nm) or POSITIONAL.search(strip_generics(d.get('decl') or '')):
+                        bad.append(nm.split('::')[-1])
+        # mutations of the vector through &mut (swap_remove returns an element, truncate returns nothing)
+        aliases, _o = mirq.move_origins(b, p['l'])
+        for cbb, ct in b.calls():
+            nm = strip_generics(callee_name(ct) or ct.get('decl') or '')
+            if not POSITIONAL.search(nm) or not ct['args']:
+                continue
+            rp = op_place(ct['args'][0])
+            if rp is None:
+                continue
+            k, v = mirq.chase(b, rp['l'])
+            root = v[2]['rv']['place']['l'] if k == 'rv' and v[2]['rv']['k'] == 'ref' else rp['l']
+            if root in aliases:
+                bad.append(nm.split('::')[-1])
+        ok = not bad
+        r9.inst({'caller': b.nid, 'site': mirq.site(b, bb), 'positional_operations_on_the_list': sorted(set(bad))}, ok=ok, kind=(b.nid, bb))
+        if not ok:
+            r9.fail('%s/candidate-list-cut' % b.nid.split('::')[-1], mirq.site(b, bb), 'the list of candidates is cut down by position (%s) before it is ranked: equally ranked overloads that were dropped can no longer make the call ambiguous, and which one survives depends on declaration order' % ', '.join(sorted(set(bad))))
+    r9.need(3)
